@@ -55,6 +55,9 @@ type site struct {
 	Line  int    `json:"line"`
 	Func  string `json:"func"`
 	Flags int    `json:"flags"`
+	// Vars: the package-level variables of the module that the statement mentions
+	// ("pkg/path.name"). Operations that reach the same variable are run together.
+	Vars []string `json:"vars,omitempty"`
 }
 
 type uncontrolled struct {
@@ -228,6 +231,7 @@ type walker struct {
 	edits   []edit
 	fn      string
 	noWrap  *ast.CallExpr // the call of a defer / go statement: never wrapped in an expression
+	vars    []string      // set by classify: package-level variables mentioned by the statement
 }
 
 func (w *walker) off(p token.Pos) int { return w.fset.Position(p).Offset }
@@ -266,7 +270,8 @@ func typeString(e ast.Expr) string {
 func (w *walker) addSite(pos token.Pos, flags int) {
 	id := len(*w.sites)
 	p := w.fset.Position(pos)
-	*w.sites = append(*w.sites, site{ID: id, File: filepath.ToSlash(w.relFile), Line: p.Line, Func: w.fn, Flags: flags})
+	*w.sites = append(*w.sites, site{ID: id, File: filepath.ToSlash(w.relFile), Line: p.Line, Func: w.fn, Flags: flags, Vars: w.vars})
+	w.vars = nil
 	o := w.off(pos)
 	w.edits = append(w.edits, edit{off: o, end: o, text: fmt.Sprintf("vsimrt.Yield(%d); ", id)})
 }
@@ -495,6 +500,7 @@ func (w *walker) call(c *ast.CallExpr) {
 // blocks and function literals have their own sites).
 func (w *walker) classify(s ast.Stmt) int {
 	flags := 0
+	w.vars = nil
 	visit := func(n ast.Node) bool {
 		switch t := n.(type) {
 		case *ast.BlockStmt, *ast.FuncLit:
@@ -503,6 +509,14 @@ func (w *walker) classify(s ast.Stmt) int {
 			if v, ok := w.info.Uses[t].(*types.Var); ok && v.Pkg() != nil && !v.IsField() &&
 				v.Parent() == v.Pkg().Scope() && strings.HasPrefix(v.Pkg().Path(), *modPath) {
 				flags |= flagHot
+				name := strings.TrimPrefix(strings.TrimPrefix(v.Pkg().Path(), *modPath), "/") + "." + v.Name()
+				dup := false
+				for _, x := range w.vars {
+					dup = dup || x == name
+				}
+				if !dup {
+					w.vars = append(w.vars, name)
+				}
 			}
 		case *ast.IndexExpr:
 			if tv, ok := w.info.Types[t.X]; ok {
@@ -611,6 +625,34 @@ func writeSites(sites []site) {
 	b.WriteString("}\n\n// SiteTab: file index, line, flags per site id.\nvar SiteTab = [][3]int32{\n")
 	for _, s := range sites {
 		fmt.Fprintf(&b, "\t{%d, %d, %d},\n", fileIdx[s.File], s.Line, s.Flags)
+	}
+	b.WriteString("}\n\n// HotVarNames: package-level variables of the module mentioned by some statement.\nvar HotVarNames = []string{\n")
+	varIdx := map[string]int{}
+	var names []string
+	for _, s := range sites {
+		for _, v := range s.Vars {
+			if _, ok := varIdx[v]; !ok {
+				varIdx[v] = len(names)
+				names = append(names, v)
+			}
+		}
+	}
+	for _, n := range names {
+		fmt.Fprintf(&b, "\t%q,\n", n)
+	}
+	b.WriteString("}\n\n// SiteVars: site id -> indices into HotVarNames.\nvar SiteVars = map[int32][]int32{\n")
+	for _, s := range sites {
+		if len(s.Vars) == 0 {
+			continue
+		}
+		fmt.Fprintf(&b, "\t%d: {", s.ID)
+		for i, v := range s.Vars {
+			if i > 0 {
+				b.WriteString(", ")
+			}
+			fmt.Fprintf(&b, "%d", varIdx[v])
+		}
+		b.WriteString("},\n")
 	}
 	b.WriteString("}\n")
 	if err := os.WriteFile(filepath.Join(*outDir, "sites_gen.go"), b.Bytes(), 0o644); err != nil {
